@@ -335,6 +335,10 @@ def c05_adapt(ctx, case):
     bad = np.abs(va - vb) > tol
     if np.any(bad):
         i = int(np.argmax(np.abs(va - vb) / tol))
+        # how far apart: the stopping rule of the iteration (D17) leaves the two grids at slightly different distances from the
+        # fixed point, which shows as a few per cent at single bins of noise-like data; anything larger there is something else
+        worst = float(np.max(np.abs(va - vb) / np.maximum(np.maximum(np.abs(va), np.abs(vb)), 1e-300)))
+        sig = dict(sig, dev="<=5%" if worst <= 0.05 else ">5%")
         ctx.fail("adaptive multitaper: value at common frequency %g depends on NFFT: %g (NFFT=%d) vs %g (NFFT=%d), ratio %.3g, line/sigma=%g"
                  % (i / float(nfft), va[i], nfft, vb[i], nfft * c, max(va[i], vb[i]) / max(min(va[i], vb[i]), 1e-300), case["ratio"]), sig=sig)
 
